@@ -907,7 +907,10 @@ def _run(case, mon):
         pf.add_ball = add_ball_shim
         m.ball_controller.num_balls_known = 3
         try:
-            vm.advance(0.5)
+            # MPF's boot leaves the virtual clock at a non-dyadic instant (0.001): move to exactly 1.0
+            vm.advance(1.0 - vm.now())
+            if vm.now() != 1.0:
+                raise RuntimeError("harness: could not align the virtual clock (now=%r)" % vm.now())
             after_op("boot")
             for i, op in enumerate(case["ops"]):
                 try:
